@@ -54,4 +54,60 @@ theorem c19_period_json (endT tm tu tr : Int) :
   simp only
   refine ⟨?_, ?_, ?_, ?_, ?_, ?_⟩ <;> (try split) <;> (try split) <;> omega
 
+/-! ### The period as a value, and its JSON decoder / encoder as functions
+
+`UnmarshalJSON` decodes into a fresh helper value and assigns the result: what a `TimePeriodType` holds
+after a decode is a function of the document (and of the clock), never of what it held before. -/
+
+/-- an end (or start) time as it stands in a document or in a value -/
+inductive T where
+  | none
+  | rel (d : Int)      -- a duration text, `d` nanoseconds
+  | abs (t : Int)      -- an instant text, `t` nanoseconds since the epoch
+deriving DecidableEq, Repr
+
+/-- a `TimePeriodType` value / a JSON document for one -/
+structure Period where
+  start : T
+  endT : T
+deriving DecidableEq, Repr
+
+/-- `UnmarshalJSON` of `doc` at instant `now` into a value holding `prev`: a relative end time without
+    start time becomes the absolute instant `Round_s(now + d)`; everything else is taken over as written;
+    fields absent from the document are absent from the result -/
+def decode (_prev : Period) (doc : Period) (now : Int) : Period :=
+  match doc.start, doc.endT with
+  | .none, .rel d => ⟨.none, .abs (endOf now d)⟩
+  | _, _ => doc
+
+/-- `GetDuration` at instant `now'` (`none` = the error "invalid data format") -/
+def getDuration (p : Period) (now' : Int) : Option Int :=
+  match p.start, p.endT with
+  | .none, .rel d => some d
+  | .none, .abs t => some (remaining t now')
+  | _, _ => none
+
+/-- `MarshalJSON` at instant `now'`: an end time without start time is written as the remaining duration -/
+def encode (p : Period) (now' : Int) : Period :=
+  match getDuration p now' with
+  | some d => ⟨p.start, .rel d⟩
+  | none => p
+
+/-- the result of decoding a document does not depend on what the value held before -/
+theorem period_decode_history_independent (p q doc : Period) (now : Int) :
+    decode p doc now = decode q doc now := rfl
+
+/-- after decoding a document with only a relative end time `d`, the value has no start time and
+    `GetDuration` is the remaining duration to the second (clause (e)), whatever the value held before -/
+theorem decode_relative_then_duration (prev : Period) (d now now' : Int) :
+    (decode prev ⟨.none, .rel d⟩ now).start = .none ∧
+    getDuration (decode prev ⟨.none, .rel d⟩ now) now' = some (remaining (endOf now d) now') := ⟨rfl, rfl⟩
+
+/-- decoding never leaves a relative end time without start time behind (it would not count down) -/
+theorem decode_no_static_relative_end (prev doc : Period) (now d : Int) :
+    ¬ ((decode prev doc now).start = .none ∧ (decode prev doc now).endT = .rel d) := by
+  unfold decode
+  rcases doc with ⟨s, e⟩
+  cases s <;> cases e <;> simp
+
 end Spine.TP
